@@ -195,7 +195,7 @@ class ZipReader(AbstractReader):
             )
 
             if len(mibData) == self.maxMibSize:
-                raise IOError('MIB %s/%s too large' % (self._name, mibfile))
+                raise error.PySmiReaderError('MIB %s/%s too large' % (self._name, mibfile), reader=self)
 
             return MibInfo(path='zip://%s/%s' % (self._name, mibfile),
                            file=mibfile, name=mibalias, mtime=mtime), decode(mibData)
